@@ -3,9 +3,10 @@ open MtxVerif MtxVerif.C30
 open MtxVerif.C26 (tokenize decodeV decodedPath decodedStart DateArgs Start allM consistent)
 open MtxVerif.C06 (isValidPathName commonPath)
 
+/-- stateless: the model uses the code's Decode (anchored, repeated placeholders agree; fix 2f5d4aa). -/
 structure D where
-  anch : Bool := false
-  coh : Bool := false
+  anch : Bool := true
+  coh : Bool := true
 
 /-! parsing -/
 
@@ -90,34 +91,31 @@ def confOf? (E : Env) (rx : RxTable) (confs : List Conf) (name : Bytes) : Option
   if confs.all (fun c => !c.isRegexp || (rxLookup rx c.key name).isSome) then confOf E confs name else none
 
 /-- `f` is, as a whole name, a recorder-written segment of path `p` under conf `c`, expired. -/
-def expiredSegment (E : Env) (cal : CalTable) (c : Conf) (p f : Bytes) : Bool :=
+def expiredSegment (strict : Bool) (E : Env) (cal : CalTable) (c : Conf) (p f : Bytes) : Bool :=
   let rp := recPath E c.fmt p
   inWalk (commonPath rp) f &&
   match decodeV true true (tokenize rp) f with
   | some m =>
     match calLookup cal (decodedStart m.caps) with
-    | some st => decide (st ≤ E.now - (c.deleteAfter : Int))
+    | some st => if strict then decide (st < E.now - (c.deleteAfter : Int)) else decide (st ≤ E.now - (c.deleteAfter : Int))
     | none => false
   | none => false
 
 /-- confs under which `f` is an expired segment of a path with retention. -/
-def justifiers (E : Env) (rx : RxTable) (cal : CalTable) (confs : List Conf) (f : Bytes) : List Conf :=
+def justifiers (strict : Bool) (E : Env) (rx : RxTable) (cal : CalTable) (confs : List Conf) (f : Bytes) : List Conf :=
   confs.flatMap fun c => (candNames E c f).filterMap fun p =>
     if (isValidPathName p).isNone then
       match confOf? E rx confs p with
-      | some c' => if c'.deleteAfter != 0 && expiredSegment E cal c' p f then some c' else none
+      | some c' => if c'.deleteAfter != 0 && expiredSegment strict E cal c' p f then some c' else none
       | none => none
     else none
 
-def justified (E : Env) (rx : RxTable) (cal : CalTable) (confs : List Conf) (f : Bytes) : Bool :=
-  !(justifiers E rx cal confs f).isEmpty
+def justified (strict : Bool) (E : Env) (rx : RxTable) (cal : CalTable) (confs : List Conf) (f : Bytes) : Bool :=
+  !(justifiers strict E rx cal confs f).isEmpty
 
 def step (d : D) (op impl : String) : D × DrvOut :=
   match words op with
-  | ["reset"] =>
-    match words impl with
-    | [a, b, c] => ({ anch := a == "0" && b == "0", coh := c == "0" }, { model := impl })
-    | _ => (d, { model := "bad-probe", spec := "FAIL unparsable probe answer" })
+  | ["reset"] => (d, { model := "ok" })
   | ["run", cwdH, nowS, confsS, filesS, "|", rxS, "|", calS] =>
     match Hex.decode cwdH, nowS.toInt?, parseConfs confsS, parseHexList filesS with
     | some cwd, some now, some confs, some rels =>
@@ -135,7 +133,6 @@ def step (d : D) (op impl : String) : D × DrvOut :=
       let model := if m1 == m2 then m1 else "-"
       let codeDel (_ : Unit) := deleted (mkEnv { anch := false, coh := false } cwd now rx cal false 0) files confs
       let fixDel (_ : Unit) := deleted (mkEnv { anch := true, coh := true } cwd now rx cal false 0) files confs
-      let anchDel (_ : Unit) := deleted (mkEnv { anch := true, coh := false } cwd now rx cal false 0) files confs
       let spec :=
         match words impl with
         | [g1, g2] =>
@@ -144,21 +141,17 @@ def step (d : D) (op impl : String) : D × DrvOut :=
             let g1 := g1.map fun r => cwd ++ 47 :: r
             if !g2.isEmpty then "FAIL a second pass deleted further files"
             else
-              let just := files.filter fun f => justified E rx cal confs f
-              let unjust := g1.filter fun f => !just.contains f
-              let missed := just.filter fun f => !g1.contains f
+              -- "older than now - delay": deletion at exact equality is tolerated, not demanded
+              let unjust := g1.filter fun f => !justified false E rx cal confs f
+              let missed := files.filter fun f => justified true E rx cal confs f && !g1.contains f
               match unjust.head?, missed.head? with
               | some f, _ =>
-                if (codeDel ()).contains f && !(anchDel ()).contains f then
-                  s!"KNOWN unanchoredExtra deleted a file that is not an expired segment: {Hex.encode f}"
-                else if (codeDel ()).contains f && !(fixDel ()).contains f then
-                  s!"KNOWN repeatedPlaceholder deleted a file that is not an expired segment: {Hex.encode f}"
+                if (codeDel ()).contains f && !(fixDel ()).contains f then
+                  s!"FAIL deleted a look-alike file that is not a segment (regression of F-C26): {Hex.encode f}"
                 else s!"FAIL deleted a file that is not an expired segment of a path with retention: {Hex.encode f}"
               | none, some f =>
-                if (justifiers E rx cal confs f).all fun c => MtxVerif.C26.pathCount (tokenize c.fmt) != 1 then
+                if (justifiers true E rx cal confs f).all fun c => MtxVerif.C26.pathCount (tokenize c.fmt) != 1 then
                   s!"KNOWN repeatedPlaceholder an expired segment was not deleted (record path with several %path): {Hex.encode f}"
-                else if (fixDel ()).contains f && !(codeDel ()).contains f then
-                  s!"KNOWN unanchoredExtra an expired segment was not deleted: {Hex.encode f}"
                 else s!"FAIL an expired segment was not deleted: {Hex.encode f}"
               | none, none => "ok"
           | _, _ => "FAIL unparsable implementation answer"
